@@ -21,7 +21,7 @@ LIST_OPS = {k: c09.LIST_OPS[k] for k in ("append", "extend", "insert", "reset", 
 # reads are allowed on objects no other thread is using (topologies with one object per thread)
 DICT_OPS["read"] = lambda t: ("len", ())
 LIST_OPS["read"] = lambda t: ("len", ())
-CORE = {"dict": ("setitem_diff", "update", "delitem", "reset", "clear", "read"), "list": ("append", "insert", "reset", "clear", "read")}
+CORE = {"dict": ("setitem_diff", "update", "reset", "clear", "read"), "list": ("append", "insert", "reset", "clear", "read")}
 CORE3 = {"dict": ("setitem_diff", "reset", "clear"), "list": ("append", "reset", "clear")}
 OPS = {"dict": DICT_OPS, "list": LIST_OPS}
 INIT = {"dict": {"k": 0, "c": {"k": 0}}, "list": [0, [0, 1]]}
